@@ -200,7 +200,7 @@ def package_body(n, adjust_total):
         pk = ao.SpendingPackageAdjustment("pkg", 2020.0, names, np.array(init), min_props=minp, max_props=maxp, min_total_spend=tot0 * 0.5 if adjust_total else None, max_total_spend=tot0 * 2 if adjust_total else None)
         with env.installed(patches):
             instr = ap.ProgramInstructions(start_year=2019.0, alloc={nm: au.TimeSeries(t=[2020.0], vals=[v]) for nm, v in zip(names, init)})
-            fr = [env.real("frac%d" % i, minp[i], maxp[i]) for i in range(n)]
+            fr = [env.real("frac%d" % i, 0.0, 1.5) for i in range(n)]  # any non-negative proposal, also outside the members' proportion limits
             vals = fr + ([env.real("package_spend", tot0 * 0.5, tot0 * 2)] if adjust_total else [])
             try:
                 pk.update_instructions(env.array(vals), instr)
